@@ -212,4 +212,15 @@ def _cases_c07(ob):
     return out
 
 
-TO_CASE = {"C18": _cases_c18, "C20": _cases_c20, "C05": _cases_c05, "C06": _cases_c06, "C07": _cases_c07}
+def _cases_c10(ob):
+    """maps mixing signal layouts / containers (state left by one utterance shows in the next), from the C10 stand-in's own plan"""
+    from rtc import c10
+    try:
+        plan = list(c10._plan("quick", 0))
+    except Exception:
+        return None
+    mixed = [c for c in plan if c.get("layouts")]
+    return (mixed + [c for c in plan if c not in mixed])[:10]
+
+
+TO_CASE = {"C10": _cases_c10, "C18": _cases_c18, "C20": _cases_c20, "C05": _cases_c05, "C06": _cases_c06, "C07": _cases_c07}
